@@ -49,6 +49,8 @@ KANI = {
             K('precis-core', CC + 'registry_matches_contextual')] + [K('precis-core', CC + t) for t in CTX_TABLES],
     'C03': [K('precis-core', 'context::verif_kani::registry'), K('precis-core', 'context::verif_kani::registry_distinct'),
             K('precis-core', CC + 'registry_matches_contextual')] + [K('precis-core', CC + t) for t in CTX_TABLES],
+    # the two table-backed predicates the username pipeline rests on (C10 / C11 own them; C04's statement includes them)
+    'C04': [K('precis-profiles', 'common::verif_kani::has_lower_mapping'), K('precis-profiles', 'usernames::verif_kani::tbl_width')],
     'C05': [K('precis-profiles', 'common::verif_kani::tbl_zs'), K('precis-profiles', 'common::verif_kani::zs_space')],
     'C06': [K('precis-profiles', 'common::verif_kani::tbl_zs'), K('precis-profiles', 'common::verif_kani::zs_space')],
     'C08': [K('precis-profiles', 'common::verif_kani::zs_space')],
@@ -131,6 +133,9 @@ EXHAUSTIVE = {
     'C01': ['no_panic_cp'],  # classification of every scalar / surrogate / boundary value returns; only panics count
     'C08': ['lower_valid', 'derived'],
     'C09': ['bidi_probe'],
+    'C10': ['lower_cp'],    # case_mapping_rule of every scalar value (alone / after an unmapped multi-byte char / after a mapped char) == char::to_lowercase
+    'C11': ['width_cp'],    # width_mapping_rule of every scalar value (same three positions) == decomposition mapping of the UCD oracle
+    'C04': ['width_cp', 'lower_cp'],
 }
 # which executable clause set of the replay tool belongs to a property
 NATIVE_SET = {'C08': 'C08known'}
